@@ -37,6 +37,7 @@ func c03Main(args []string) {
 		run.Count("walk:unaligned-values", int64(st.Unaligned))
 		run.Count("walk:gap-fields", int64(st.Gaps))
 		run.Count("walk:synthetic", int64(st.Synthetic))
+		run.Count("walk:values-with-range-view-reader (content compared with buffer root)", int64(st.ViewReaders))
 		for _, is := range issues {
 			run.Violation(is.Sig, j.Label+": "+is.Desc, map[string]any{"case": j.Label})
 		}
